@@ -97,8 +97,8 @@ class H(Harness):
     ID = 'C15'
     TIE_IMPORT = 'From EpyV Require Import Model.Shuffle Model.Generators Tie.C15.'
     CHECK_FN = 'EpyV.Tie.C15.check_case'
-    QUICK_N = 640
-    THOROUGH_N = 6400
+    QUICK_N = 1360
+    THOROUGH_N = 13600
     CASE_TIMEOUT = 30
     ALLOWED_AXIOMS = set()
     RULE = ('eight kinds in fixed proportion: quota (random set/mutate/generate/next programs, limit None or 0-3, with and without '
